@@ -9,7 +9,8 @@ BOUNDS = ("templates [ORG o; SRC; RMB n; TGT] and [ORG o; TGT; RMB n; SRC] for a
           "label,PCR / [label,PCR] / label+k,PCR / label-k,PCR operands of 1- and 2-byte-opcode instructions; "
           "templates with 2 and 3 PCR statements whose spans overlap or nest; origin o symbolic 16 bit, every gap n "
           "symbolic in [0,40000] (so every distance incl. +-127/128 and +-32767/32768 is decided by the solver), "
-          "k symbolic in [0,300]")
+          "k symbolic in [0,300]; single-reference templates with every size class of filler statement (data directives, "
+          "indexed forms, long branches) inside the span; chains of 3-5 (thorough 8) unsized PCR statements")
 OUTSIDE = ("non-terminating sizing (C13) and internal errors (C13) are assumed away here; bare numeric n,PCR is C01's; "
            "more than 3 PCR statements per program")
 ASSUMPTIONS = ["addresses are computed from the origin and the byte counts actually emitted (listing agreement is C02's)"]
